@@ -5,6 +5,7 @@ carries the set of feature tags it used. Output columns are always aliased c0..c
 refers to those aliases, so oracles know the key columns.
 """
 import random
+import re
 
 INT_TYPES = ("INT", "BIGINT", "SMALLINT")
 
@@ -167,6 +168,11 @@ DEFAULT_FEATURES = dict(
 )
 
 
+_ALIAS_COL = re.compile(r"\b[a-z]\d+\.c\d+\b")
+# an aggregate call over an argument without nested parentheses or with one level of them
+_AGG_CALL = re.compile(r"\b(?:COUNT|SUM|MIN|MAX)\((?:[^()]|\([^()]*\))*\)")
+
+
 class Q:
     def __init__(self, sql, tags, ncols, order=None, limited=False):
         self.sql, self.tags, self.ncols = sql, set(tags), ncols
@@ -183,6 +189,10 @@ class QueryGen:
             self.f.update(features)
         self.tags = set()
         self.alias_n = 0
+        # derived-table columns: alias.cN -> select item text in terms of base columns, and the
+        # aggregate calls (text in terms of base columns) the derived tables in scope expose
+        self.origin = {}
+        self.inner_aggs = set()
 
     def on(self, name, p=1.0):
         return self.f.get(name, False) and self.rng.random() < p
@@ -374,6 +384,10 @@ class QueryGen:
                     break
             self.tags |= sub.tags
             scope = [(f"{a0}.c{i}", ty, True) for i, ty in enumerate(q["types"])]
+            for i, item in enumerate(q["items"]):
+                self.origin[f"{a0}.c{i}"] = sub.expand(item)
+                self.inner_aggs |= set(_AGG_CALL.findall(sub.expand(item)))
+            self.inner_aggs |= sub.inner_aggs
             inner = q["sql"]
             if self.on("derived_limit", 0.35):
                 # a LIMIT under a total order inside the derived table: filters above it must not be
@@ -481,6 +495,19 @@ class QueryGen:
             return (f"({r.choice(ints_out)[0]} {r.choice(['=', '<', '>', '<=', '>='])} "
                     f"(SELECT {agg}({r.choice(ints_in)[0]}) FROM {t.name} AS {a}{inner_where}))")
 
+    def expand(self, text):
+        """text with every derived-table column replaced by the select item it stands for"""
+        return _ALIAS_COL.sub(lambda m: self.origin.get(m.group(0), m.group(0)), text)
+
+    def repeats_inner_agg(self, agg_sql):
+        """True when this aggregate call is textually the aggregate a derived table in scope already
+        computes (SELECT COUNT(x.c0) FROM (SELECT b AS c0, COUNT(b) AS c1 ... GROUP BY b) AS x GROUP BY x.c1):
+        the two calls are one expression for risinglight (known finding C02
+        outer-aggregate-identical-to-derived-table-aggregate, kept by its sentinel)."""
+        if not self.inner_aggs:
+            return False
+        return any(call in self.inner_aggs for call in _AGG_CALL.findall(self.expand(agg_sql)))
+
     # ---- SELECT core
     def select_core(self, allow_order=True, max_items=4):
         r = self.rng
@@ -519,7 +546,7 @@ class QueryGen:
                 types.append(g[1])
             aggs = []
             for _ in range(r.randint(1, 3)):
-                aggs.append(self.agg_expr(scope))
+                aggs.append(self.fresh_agg(scope))
             for a, ty in aggs:
                 if ty == "INT" and self.on("agg_in_list", 0.12):
                     # an aggregate as the left operand of an IN list (a BOOLEAN select item)
@@ -531,7 +558,7 @@ class QueryGen:
                 group_sql = " GROUP BY " + ", ".join(g[0] for g in gcols)
             if self.on("having", 0.3):
                 self.tag("having")
-                a, _ = self.agg_expr(scope, int_only=True)
+                a, _ = self.fresh_agg(scope, int_only=True)
                 having_sql = f" HAVING {a} {r.choice(['>', '<', '=', '>=', '<>'])} {self.int_lit()}"
         else:
             n = r.randint(1, max_items)
@@ -545,6 +572,14 @@ class QueryGen:
         sel = ", ".join(f"{e} AS c{i}" for i, e in enumerate(items))
         sql = f"SELECT {distinct}{sel} FROM {frm}{where_sql}{group_sql}{having_sql}"
         return dict(sql=sql, types=types, n=len(items), items=items)
+
+    def fresh_agg(self, scope, int_only=False):
+        for _ in range(8):
+            a = self.agg_expr(scope, int_only)
+            if not self.repeats_inner_agg(a[0]):
+                return a
+        self.tag("agg:count_star")
+        return "COUNT(*)", "INT"
 
     def agg_expr(self, scope, int_only=False):
         r = self.rng
@@ -582,6 +617,7 @@ class QueryGen:
         """A complete query."""
         r = self.rng
         self.tags = set()
+        self.origin, self.inner_aggs = {}, set()
         core = self.select_core()
         sql = core["sql"]
         n = core["n"]
